@@ -8,7 +8,8 @@
 (* (absent "-", zero, boundary, typical, schema-valid-but-odd such as YAML null elements, cross    *)
 (* references that hit / miss).  Grammar(k) is the set of records [field -> class]; the first      *)
 (* class of every field is the field's *base* class and Base(k) is a working configuration.        *)
-(* Dev(k, c) counts the fields that deviate from the base; the generator (ConfigSpace_Gen)         *)
+(* Dev(k, c) counts the fields that deviate from the base (a padded class of a field - see PADDED  *)
+(* VALUES - counts once); the generator (ConfigSpace_Gen)                                          *)
 (* enumerates {c \in Grammar(k) : Dev(k, c) <= MaxDev} exhaustively (the whole grammar when MaxDev  *)
 (* is the number of fields).  Classes are strings so that one set never mixes types; the Go        *)
 (* harness (harness/pkg/object/pipeline/c13_render_test.go) concretises a class into YAML.         *)
@@ -82,6 +83,20 @@ AdaptHeader == <<"-", "set", "add", "del", "all", "nullval", "emptyobj">>
 \* RoundRobin, time_based, hs256, get ...): the sites that accept a value and the sites that use it must agree on
 \* the letter case as well.
 
+\* PADDED VALUES.  A string field that carries one of the custom formats of pkg/v (struct tag format=duration,
+\* regexp, httpmethod[-array], urlname, base64, url, uri, ipcidr[-array]) is validated by the format's function
+\* and later parsed / compared again by whoever uses it (time.ParseDuration, regexp.Compile, == http.MethodGet,
+\* name look-ups ...).  The two sites must agree on more than the letter case: a value a more lenient validator
+\* lets through is one the consumer must cope with.  The last field of every kind, "pad", therefore carries the
+\* class "A VALID VALUE WITH LEADING / TRAILING WHITE SPACE": pad = "<format>_lead" ("<format>_trail") writes
+\* every string of that format in the configuration with one blank before (after) it.  The harness finds those
+\* strings from the repository's own types (c13_pad_test.go), so the class reaches every format-validated
+\* field of every kind, including the ones of the pipeline / resilience definitions around a filter.
+Formats == {"duration", "regexp", "httpmethod", "urlname", "base64", "url", "uri", "ipcidr"}
+Pads(fs) == [i \in 1..(2 * Len(fs)) |-> fs[(i + 1) \div 2] \o (IF i % 2 = 1 THEN "_lead" ELSE "_trail")]
+PadField(fs) == F("pad", <<"-">> \o Pads(fs))       \* fs: the formats that occur in configurations of the kind
+PadFmtOf(p) == CHOOSE f \in Formats : p \in {f \o "_lead", f \o "_trail"}
+
 Fields(k) ==
   CASE k = "Proxy" ->
        << F("servers",      <<"one", "two", "dead", "hostname", "badurl", "nourl", "null", "empty", "none", "svcname">>),
@@ -103,7 +118,8 @@ Fields(k) ==
           F("mtls",         <<"-", "garbage", "badb64", "partial">>),
           F("maxIdle",      <<"-", "0", "-1">>),
           F("maxIdleHost",  <<"-", "0", "-1">>),
-          F("topMaxBody",   <<"-", "-1", "1">>) >>      \* (the pipeline around it defines Retry r1, rwait and CircuitBreaker cb1)
+          F("topMaxBody",   <<"-", "-1", "1">>),
+          PadField(<<"urlname", "url", "duration", "regexp", "httpmethod", "base64">>) >>      \* (the pipeline around it defines Retry r1, rwait and CircuitBreaker cb1)
     [] k = "Validator" ->
        << F("headers",   <<"-", "values", "regexp", "emptyval", "null", "badre", "emptyobj">>),
           F("jwt",       <<"-", "HS256", "HS512", "cookie", "noSecret", "noAlg", "badAlg", "oddSecret", "emptyobj", "lowerAlg">>),
@@ -111,7 +127,8 @@ Fields(k) ==
                            "emptySecret", "emptyId", "nullSecret", "mixedEmpty", "idNoSecret">>),
           F("oauth2",    <<"-", "jwt", "jwtNoSecret", "emptyobj", "introspectLive", "introspectBasic", "introspectDead",
                            "introspectBadURL", "introspectNoEnd", "both", "jwtLowerAlg">>),
-          F("basicAuth", <<"-", "fileOk", "fileMissing", "emptyobj", "etcd", "etcdPrefix", "badMode", "lowerMode">>) >>
+          F("basicAuth", <<"-", "fileOk", "fileMissing", "emptyobj", "etcd", "etcdPrefix", "badMode", "lowerMode">>),
+          PadField(<<"urlname", "regexp", "duration">>) >>
     [] k = "RateLimiter" ->
        << F("policies",   <<"one", "two", "dup", "noName", "none", "null", "absent">>),
           F("refresh",    <<"10ms", "-", "0s", "-1s", "1h", "1ns", "bogus">>),
@@ -119,7 +136,8 @@ Fields(k) ==
           F("limit",      <<"5", "-", "1", "0", "-1", "1000000000">>),
           F("defaultRef", <<"-", "p1", "undef">>),
           F("urls",       <<"one", "exact", "regex", "badregex", "emptyMatch", "emptyTrue", "noURL", "methods", "badMethod",
-                            "noRef", "undefRef", "two", "none", "null", "absent", "lowerMethod">>) >>
+                            "noRef", "undefRef", "two", "none", "null", "absent", "lowerMethod">>),
+          PadField(<<"urlname", "duration", "regexp", "httpmethod">>) >>
     [] k = "RequestAdaptor" ->
        << F("host",       <<"-", "h.example">>),
           F("method",     <<"-", "POST", "FETCH", "post">>),
@@ -127,19 +145,22 @@ Fields(k) ==
           F("header",     AdaptHeader),
           F("body",       <<"-", "text">>),
           F("compress",   <<"-", "gzip", "deflate", "GZIP">>),
-          F("decompress", <<"-", "gzip", "deflate", "Gzip">>) >>
+          F("decompress", <<"-", "gzip", "deflate", "Gzip">>),
+          PadField(<<"urlname", "httpmethod", "regexp">>) >>
     [] k = "ResponseAdaptor" ->
        << F("header",     AdaptHeader),
           F("body",       <<"-", "text">>),
           F("compress",   <<"-", "gzip", "deflate", "GZIP">>),
-          F("decompress", <<"-", "gzip", "deflate", "Gzip">>) >>
+          F("decompress", <<"-", "gzip", "deflate", "Gzip">>),
+          PadField(<<"urlname">>) >>
     [] k \in {"RequestBuilder", "ResponseBuilder"} ->
        << F("template",        <<"ok", "-", "useReq", "useBody", "useJSON", "useResp", "missingNs", "syntaxErr", "badFunc",
                                  "divzero", "notYaml", "badMethod", "scalar", "emptyDoc">>),
           F("sourceNamespace", <<"-", "DEFAULT", "other">>),
           F("leftDelim",       <<"-", "[[">>),
           F("rightDelim",      <<"-", "]]">>),
-          F("protocol",        <<"-", "http", "mqtt", "bogus", "HTTP">>) >>
+          F("protocol",        <<"-", "http", "mqtt", "bogus", "HTTP">>),
+          PadField(<<"urlname">>) >>
     [] k = "Mock" ->
        << F("rules",        <<"one", "two", "noMatch", "none", "null", "nullThenOne", "absent">>),
           F("code",         <<"200", "-", "0", "99", "600", "204">>),
@@ -148,11 +169,13 @@ Fields(k) ==
           F("matchHeaders", <<"-", "exact", "emptyTrue", "regex", "badregex", "null", "emptyval", "conflict", "two">>),
           F("matchAll",     <<"-", "true">>),
           F("headers",      <<"-", "set", "nullval">>),
-          F("body",         <<"-", "text">>) >>
+          F("body",         <<"-", "text">>),
+          PadField(<<"urlname", "duration", "regexp">>) >>
     [] k = "Fallback" ->
        << F("mockCode",    <<"200", "-", "0", "99", "600">>),
           F("mockHeaders", <<"-", "set", "nullval">>),
-          F("mockBody",    <<"-", "text">>) >>
+          F("mockBody",    <<"-", "text">>),
+          PadField(<<"urlname">>) >>
     [] k = "CORSAdaptor" ->
        << F("origins",     <<"-", "star", "one", "wild", "twoWild", "empty", "nullval", "emptystr">>),
           F("methods",     <<"-", "GET", "bogus", "dup", "empty", "lower">>),
@@ -160,23 +183,28 @@ Fields(k) ==
           F("exposed",     <<"-", "one", "empty">>),
           F("credentials", <<"-", "true">>),
           F("maxAge",      <<"-", "0", "-1", "600">>),
-          F("support",     <<"-", "true">>) >>
+          F("support",     <<"-", "true">>),
+          PadField(<<"urlname", "httpmethod">>) >>
     [] k = "HeaderLookup" ->
        << F("headerKey",  <<"X-A", "-", "empty">>),
           F("etcdPrefix", <<"pfx/", "/pfx", "-", "empty">>),
           F("pathRegExp", <<"-", "plain", "group", "bad">>),
-          F("setters",    <<"one", "two", "noEtcdKey", "noHeaderKey", "none", "null", "absent">>) >>
+          F("setters",    <<"one", "two", "noEtcdKey", "noHeaderKey", "none", "null", "absent">>),
+          PadField(<<"urlname">>) >>
     [] k = "HeaderToJSON" ->
-       << F("headerMap", <<"one", "two", "noJSON", "emptyJSON", "none", "null", "absent">>) >>
+       << F("headerMap", <<"one", "two", "noJSON", "emptyJSON", "none", "null", "absent">>),
+          PadField(<<"urlname">>) >>
     [] k = "MeshAdaptor" ->
        << F("canaries", <<"one", "none", "null", "absent">>),
           F("header",   <<"set", "-", "del", "all", "nullval", "emptyobj">>),
-          F("filter",   <<"hdr", "-", "regex", "random", "noHeaders", "nullhdr", "policyUpper">>) >>
+          F("filter",   <<"hdr", "-", "regex", "random", "noHeaders", "nullhdr", "policyUpper">>),
+          PadField(<<"urlname", "regexp">>) >>
     [] k = "Retry" ->
        << F("maxAttempts",  <<"-", "1", "2", "0", "-1">>),
           F("waitDuration", <<"1ms", "-", "0s", "-1ms", "bogus">>),
           F("backOff",      <<"-", "random", "exponential", "bogus", "Exponential">>),
-          F("factor",       <<"-", "0", "0.5", "1", "1.5", "-0.5">>) >>
+          F("factor",       <<"-", "0", "0.5", "1", "1.5", "-0.5">>),
+          PadField(<<"urlname", "duration">>) >>
     [] k = "CircuitBreaker" ->
        << F("windowType", <<"-", "COUNT_BASED", "TIME_BASED", "bogus", "time_based">>),
           F("failRate",   <<"-", "0", "1", "100", "101">>),
@@ -187,7 +215,8 @@ Fields(k) ==
           F("minCalls",   <<"2", "-", "0", "1">>),
           F("slowDur",    <<"-", "0s", "1ns", "bogus">>),
           F("maxWait",    <<"-", "0s", "1ms", "-1s">>),
-          F("waitOpen",   <<"2ms", "-", "0s", "-1s">>) >>
+          F("waitOpen",   <<"2ms", "-", "0s", "-1s">>),
+          PadField(<<"urlname", "duration">>) >>
     [] k = "Pipeline" ->
        << F("filters",    <<"mock", "mock2", "proxy", "builder", "fallback", "none", "absent", "null", "dupName", "endName",
                             "badKind", "noName", "lowerKind">>),
@@ -195,10 +224,12 @@ Fields(k) ==
                             "lowerEnd">>),
           F("jumpIf",     <<"-", "toEnd", "fwd", "self", "badResult", "undefTarget", "emptyTarget">>),
           F("ns",         <<"-", "DEFAULT", "other">>),
-          F("resilience", <<"-", "retry", "both", "dupName", "badKind", "noName", "null", "empty">>) >>
+          F("resilience", <<"-", "retry", "both", "dupName", "badKind", "noName", "null", "empty">>),
+          PadField(<<"urlname", "duration">>) >>
     [] k = "GlobalFilter" ->
        << F("before", <<"-", "mock", "noflow", "flowOnly", "endOnly", "badfilter", "adaptor", "emptyobj", "null">>),
-          F("after",  <<"-", "mock", "noflow", "flowOnly", "endOnly", "badfilter", "adaptor", "emptyobj", "null">>) >>
+          F("after",  <<"-", "mock", "noflow", "flowOnly", "endOnly", "badfilter", "adaptor", "emptyobj", "null">>),
+          PadField(<<"urlname", "httpmethod">>) >>
     [] k = "HTTPServer" ->
        << F("port",              <<"free", "0", "65536", "absent">>),
           F("keepAlive",         <<"-", "true", "false">>),
@@ -219,7 +250,8 @@ Fields(k) ==
           F("methods",           <<"-", "GET", "bogus", "dup", "lower">>),
           F("pathMaxBody",       <<"-", "-1", "1">>),
           F("pathIPFilter",      <<"-", "allowLocal", "blockLocal">>),
-          F("globalFilter",      <<"-", "undef">>) >>
+          F("globalFilter",      <<"-", "undef">>),
+          PadField(<<"urlname", "duration", "regexp", "httpmethod", "base64", "ipcidr">>) >>
     [] k = "MQTTProxy" ->
        << F("port",           <<"free", "0", "absent">>),
           F("tls",            <<"-", "nocert", "cert", "badcert", "certNoTLS">>),
@@ -227,11 +259,66 @@ Fields(k) ==
           F("maxConn",        <<"-", "1", "0", "-1">>),
           F("connLimit",      <<"-", "req", "bytes", "both", "zero", "neg", "emptyobj">>),
           F("pubLimit",       <<"-", "req", "bytes", "both", "zero", "neg", "emptyobj">>),
-          F("rules",          <<"-", "connect", "publish", "all", "noWhen", "emptyWhen", "badType", "dup", "noPipeline", "null", "empty", "lowerType">>) >>
-    [] k = "KafkaMQTT"     -> << F("spec", <<"ok", "noMQTT", "noBackend", "empty">>) >>
-    [] k = "Kafka"         -> << F("spec", <<"ok", "noBackend", "noTopic", "empty">>) >>
-    [] k = "RemoteFilter"  -> << F("spec", <<"ok", "badURL", "badTimeout", "empty">>) >>
-    [] k = "CertExtractor" -> << F("spec", <<"ok", "badTarget", "noHeaderKey", "empty", "upperTarget">>) >>
+          F("rules",          <<"-", "connect", "publish", "all", "noWhen", "emptyWhen", "badType", "dup", "noPipeline", "null", "empty", "lowerType">>),
+          PadField(<<"urlname">>) >>
+    [] k = "KafkaMQTT"     -> << F("spec", <<"ok", "noMQTT", "noBackend", "empty">>), PadField(<<"urlname">>) >>
+    [] k = "Kafka"         -> << F("spec", <<"ok", "noBackend", "noTopic", "empty">>), PadField(<<"urlname">>) >>
+    [] k = "RemoteFilter"  -> << F("spec", <<"ok", "badURL", "badTimeout", "empty">>), PadField(<<"urlname", "uri", "duration">>) >>
+    [] k = "CertExtractor" -> << F("spec", <<"ok", "badTarget", "noHeaderKey", "empty", "upperTarget">>), PadField(<<"urlname">>) >>
+
+\* Which classes of which field write a string of which format (what the harness's renderer does; the harness
+\* reports the formats it found per configuration and the driver holds them against this table).  Every kind
+\* has a name (urlname); a filter is driven inside a pipeline whose name and - for the Proxy - resilience
+\* definitions (durations) are there whatever the filter's fields say.
+Car(f, n, cs) == {<<f, n, x>> : x \in cs}
+AlwaysFmt(k) == IF k = "Proxy" THEN {"urlname", "duration"} ELSE {"urlname"}
+Carriers(k) ==
+  CASE k = "Proxy" ->
+         Car("url", "servers", {"one", "two", "dead", "hostname", "badurl"})
+    \cup Car("url", "candidate", {"hdr", "hdrAll", "regex", "badregex", "urls", "urlNoMatch", "urlNull", "nullhdr", "emptyhdr", "noHeaders",
+                                  "emptyobj", "ipHash", "ipHashRegexHdr", "random1000", "permil0", "permil1001", "headerHash",
+                                  "headerHashNoKey", "bogus", "policyUpper", "urlsLowerMethod"})
+    \cup Car("url", "mirror", {"ok", "hdr", "dead", "nofilter", "withcache", "wrnd"})
+    \cup Car("duration", "timeout", {"50ms", "0s", "-1s", "1ns", "bogus"})
+    \cup Car("duration", "memoryCache", {"ok", "exp0", "expNeg", "badExp", "zeroBytes", "noMethods", "noCodes", "lowerMethods"})
+    \cup Car("httpmethod", "memoryCache", {"ok", "exp0", "expNeg", "badExp", "zeroBytes", "noCodes", "lowerMethods"})
+    \cup Car("httpmethod", "candidate", {"urls", "urlsLowerMethod"})
+    \cup Car("regexp", "candidate", {"regex", "badregex", "urls", "ipHashRegexHdr"})
+    \cup Car("base64", "mtls", {"garbage", "badb64", "partial"})
+    [] k = "Validator" ->
+         Car("regexp", "headers", {"regexp", "badre"}) \cup Car("duration", "sig", {"ttl", "badTTL"})
+    [] k = "RateLimiter" ->
+         Car("duration", "refresh", {"10ms", "0s", "-1s", "1h", "1ns", "bogus"})
+    \cup Car("duration", "timeout", {"5ms", "0s", "-1s", "1h"})
+    \cup Car("regexp", "urls", {"regex", "badregex"})
+    \cup Car("httpmethod", "urls", {"methods", "badMethod", "lowerMethod"})
+    [] k = "RequestAdaptor" ->
+         Car("httpmethod", "method", {"POST", "FETCH", "post"}) \cup Car("regexp", "path", {"regexp", "badregexp", "all"})
+    [] k = "Mock" ->
+         Car("duration", "delay", {"1ms", "0s", "-1s", "bogus"}) \cup Car("regexp", "matchHeaders", {"regex", "badregex"})
+    [] k = "CORSAdaptor" -> Car("httpmethod", "methods", {"GET", "bogus", "dup", "lower"})
+    [] k = "MeshAdaptor" -> Car("regexp", "filter", {"regex"})
+    [] k = "Retry" -> Car("duration", "waitDuration", {"1ms", "0s", "-1ms", "bogus"})
+    [] k = "CircuitBreaker" ->
+         Car("duration", "slowDur", {"0s", "1ns", "bogus"}) \cup Car("duration", "maxWait", {"0s", "1ms", "-1s"})
+    \cup Car("duration", "waitOpen", {"2ms", "0s", "-1s"})
+    [] k = "Pipeline" ->
+         Car("duration", "resilience", {"retry", "both", "dupName"})
+    [] k = "GlobalFilter" ->
+         Car("httpmethod", "before", {"adaptor"}) \cup Car("httpmethod", "after", {"adaptor"})
+    [] k = "HTTPServer" ->
+         Car("duration", "keepAliveTimeout", {"1s", "0s", "-1s", "bogus"})
+    \cup Car("regexp", "host", {"regexp", "badregexp", "both"})
+    \cup Car("regexp", "path", {"regexp", "badregexp", "rewriteRegexp", "rewriteMixed"})
+    \cup Car("regexp", "headers", {"regexp", "all", "badregexp"})
+    \cup Car("httpmethod", "methods", {"GET", "bogus", "dup", "lower"})
+    \cup Car("base64", "https", {"garbageCert", "caOnly"})
+    \cup Car("ipcidr", "ipFilter", {"allowLocal", "blockLocal", "both", "badcidr", "v4mapped", "dup"})
+    \cup Car("ipcidr", "ruleIPFilter", {"allowLocal", "blockLocal", "v4mapped"})
+    \cup Car("ipcidr", "pathIPFilter", {"allowLocal", "blockLocal"})
+    [] k = "RemoteFilter" ->
+         Car("uri", "spec", {"ok", "badURL", "badTimeout"}) \cup Car("duration", "spec", {"ok", "badTimeout"})
+    [] OTHER -> {}
 
 Range(s)      == {s[i] : i \in DOMAIN s}
 NFields(k)    == Len(Fields(k))
@@ -245,7 +332,16 @@ BaseOf(k, n)  == Fields(k)[FieldOf(k, n)].d[1]
 InGrammar(k, c) == /\ DOMAIN c = FieldNames(k)
                    /\ \A n \in FieldNames(k) : c[n] \in Dom(k, n)
 Base(k)   == [n \in FieldNames(k) |-> BaseOf(k, n)]
+
+\* a configuration carries format f; a field off its base class carries it
+Carries(k, c, f)  == f \in AlwaysFmt(k) \/ \E n \in FieldNames(k) \ {"pad"} : <<f, n, c[n]>> \in Carriers(k)
+OffBaseCarrier(k, c, f) == \E n \in FieldNames(k) \ {"pad"} : c[n] # BaseOf(k, n) /\ <<f, n, c[n]>> \in Carriers(k)
+\* a padded class exists only where there is a value to pad
+PadSound(k, c) == c.pad = "-" \/ Carries(k, c, PadFmtOf(c.pad))
+\* Distance from the base: the number of fields off their base class - where "field x has the padded variant
+\* of its class v" (x = v off base, pad = the format of v) is ONE deviation, like any other class of x.
 Dev(k, c) == Cardinality({n \in FieldNames(k) : c[n] # BaseOf(k, n)})
+               - (IF c.pad # "-" /\ OffBaseCarrier(k, c, PadFmtOf(c.pad)) THEN 1 ELSE 0)
 
 (***************************************************************************************************)
 (* Rules the repository states in its Validate() methods (pkg/filters/proxy: Spec.Validate,        *)
